@@ -1,0 +1,16 @@
+//go:build verif
+
+package types
+
+// VerifYield, when set by a verification harness, is called at the primitive steps of the
+// parallel service transformation (worker start/return/send, collector receive/exit).
+var VerifYield func(step, key string)
+
+func verifYield(step, key string) {
+	if f := VerifYield; f != nil {
+		f(step, key)
+	}
+}
+
+// VerifDeepCopy exposes the generated deep copy of a project.
+func VerifDeepCopy(p *Project) *Project { return p.deepCopy() }
